@@ -6,7 +6,7 @@ categories only through `is_functor / left / right / slash / base / feature.valu
 `Unification`, `clear_features` or `==` of the code under test.
 """
 from string import ascii_letters
-from depccg.cat import Atom, Functor, UnaryFeature
+from depccg.cat import Atom, Functor, UnaryFeature, Category
 
 LOOSE = (None, 'X', 'nb')          # absent, variable, 'nb': compatible with anything
 LABELS = {('fa', '>'), ('ba', '<'), ('fc', '>B'), ('bx', '<B'), ('gfc', '>B'), ('gbx', '<B'), ('conj', '<Φ>'),
@@ -197,7 +197,23 @@ def expected(x, y):
         out.append(('lp', y))
     if is_punct(y):
         out.append(('rp', x))
+    # the listed type-changing rules: their premises are exact categories
+    if cat_is(x, ('S', 'dcl')) and cat_is(y, (('S', 'em'), '\\', ('S', 'em'))):
+        out.append(('ba', x))
+    if atom_is(x, 'conj') and cat_is(y, (('NP', None), '\\', ('NP', None))):
+        out.append(('conj', y))
+    if atom_is(x, ',') and (cat_is(y, (('S', 'ng'), '\\', ('NP', None))) or cat_is(y, (('S', 'pss'), '\\', ('NP', None)))):
+        out.append(('lp', mk(S_NP, '\\', S_NP)))
+    if atom_is(x, ',') and cat_is(y, (('S', 'dcl'), '/', ('S', 'dcl'))):
+        out.append(('lp', mk(S_NP, '/', S_NP)))
     return out
+
+
+def mk(*shape):
+    """the category of a shape (see cat_is)"""
+    if len(shape) == 2:
+        return Category.parse(shape[0] if shape[1] is None else f'{shape[0]}[{shape[1]}]')
+    return Functor(mk(*shape[0]), shape[1], mk(*shape[2]))
 
 
 def check_pair(x, y, results):
